@@ -834,6 +834,155 @@ def run_string_checks(ctx, rng, n):
     return dist
 
 
+# ------------------------------------------- parse(): token-level correspondence
+HEADER_STR = ("From Coq Require Import List Bool Arith.\nImport ListNotations.\n"
+              "From QV Require Import Model.C06_str.\n")
+TYPECODES = {"TInt": ("_int", "int"), "TDbl": ("_dbl", "double"), "TCpl": ("_cpl", "complex"),
+             "TStr": ("_str", "str"), "TObj": ("_obj", "object"), "TData": ("_datalayer", "Data")}
+CT_OF = {v[1]: k for k, v in TYPECODES.items()}
+_TOK_RE = re.compile(
+    r"(?P<lit>(?<![0-9a-zA-Z_])(?:[0-9]*\.?[0-9]+e[+-]?[0-9]*j?|[0-9]+\.?[0-9]*e[+-]?[0-9]*j?"
+    r"|[0-9]+\.?[0-9]*j?|[0-9]*\.?[0-9]+j?))|(?P<name>[0-9a-zA-Z_]+)"
+    r"|(?P<syn>(?:(?!\.[0-9])[^0-9a-zA-Z_\s])+)")
+
+
+def source_patterns(cmod):
+    """the four regular expressions of extract_constant, read from the source
+    under test"""
+    import inspect
+    src = inspect.getsource(cmod.extract_constant)
+    pats = re.findall(r'"(\[\^[^"]*)"', src)
+    if len(pats) != 4:
+        raise RuntimeError("extract_constant no longer has four patterns: %r" % pats)
+    return pats
+
+
+def tokenize(code, pats):
+    """word list of an expression as parse() sees it: (kind, text[, class])"""
+    toks = []
+    padded = " " + code + " "
+    for m in _TOK_RE.finditer(padded):
+        if m.lastgroup == "lit":
+            text = m.group()
+            prev = padded[m.start() - 1]
+            cls = next((k for k, pt in enumerate(pats)
+                        if re.fullmatch(pt, prev + text)), 4)
+            toks.append(("lit", text, cls))
+        elif m.lastgroup == "name":
+            toks.append(("name", m.group()))
+        else:
+            toks.append(("syn", m.group()))
+    return toks
+
+
+def run_parse_corr(ctx, rng, n):
+    import importlib
+    import qutip
+    cmod = importlib.import_module("qutip.core.coefficient")
+    try:
+        pats = source_patterns(cmod)
+    except Exception as e:
+        ctx.violation("corr:coefficient.parse", "patterns-unreadable", str(e), {}, found_input=False)
+        return {"cases": 0}
+    fixed = [".5+t", "t*.25", "2.*cos(w*t)", "sin(w*t)+2.5*a + 3 + 1e-3j", "a*b*t**2",
+             "1e3*t+1.5e-2j*w", ".5 + w * 2.5 - 1e3 * w + a", "w*w + w", "2.e3*a+.5e1j-w",
+             "a if t<1 else b", "np.cos(w*t)*q[0]+zz"]
+    cases, exprs, impl = [], [], []
+    for it in range(n):
+        code = fixed[it] if it < len(fixed) else gen_expr(rng)
+        if it >= len(fixed) and rng.random() < 0.5:
+            # literals of every pattern class, repeated texts included
+            code += rng.choice(["+", " - ", "*"]) + rng.choice(
+                [".5", ".25j", "2.e3", "3.e-2j", "1e3", ".5e1", "7", "2.", "1.5j", "12.75",
+                 "1e-3", ".125"])
+        args = {"w": rng.choice([2, 0.5, 1.5 + 0.5j]), "a": rng.choice([1j, 2.0, -1]),
+                "b": rng.choice([0.25, 4, 1 - 1j])}
+        if rng.random() < 0.3:
+            args["zz"] = rng.choice([7, "text", 1.5])
+        if rng.random() < 0.2:
+            args["q"] = [1, 2]
+        ai, af = rng.random() < 0.5, rng.random() < 0.5
+        opt = {"accept_int": ai, "accept_float": af}
+        try:
+            ncode, variables, constants = cmod.parse(code, dict(args), opt)
+        except Exception as e:
+            ctx.violation("corr:coefficient.parse", "parse-raises-" + type(e).__name__,
+                          "parse(%r, accept_int=%s, accept_float=%s) raised %s" % (
+                              code, ai, af, type(e).__name__),
+                          {"kind": "parse-corr", "code": code, "args": repr(args)})
+            continue
+        toks = tokenize(code, pats)
+        names, syns, texts = {}, {}, {}
+        ctoks = []
+        for tk in toks:
+            if tk[0] == "lit":
+                ctoks.append("TLit %d %d" % (tk[2], texts.setdefault(tk[1], len(texts))))
+            elif tk[0] == "name":
+                ctoks.append("TName %d" % names.setdefault(tk[1], len(names)))
+            else:
+                ctoks.append("TSyn %d" % syns.setdefault(tk[1], len(syns)))
+        argty = " | ".join("%d => Some %s" % (names[k], CT_OF[cmod.compileType(v)])
+                           for k, v in args.items() if k in names)
+        litty = " | ".join("%d => %s" % (i, CT_OF.get(cmod.find_type_from_str(tx), "TObj"))
+                           for tx, i in texts.items())
+        exprs.append("parse %s %s (fun x => match x with %s_ => None end) "
+                     "(fun x => match x with %s_ => TObj end) %s" % (
+                         cbool(ai), cbool(af), (argty + " | ") if argty else "",
+                         (litty + " | ") if litty else "", clist(ctoks)))
+        cases.append((code, args, ai, af, toks, names, syns, texts))
+        impl.append((ncode, variables, constants))
+        ctx.count_case(("parse-corr", code, repr(sorted(args.items(), key=str)), ai, af),
+                       nontrivial=len(toks) >= 3)
+    try:
+        vals = vlib.coq_eval_values("cases_C06s", HEADER_STR, exprs, chunk=100)
+    except (RuntimeError, ValueError) as e:
+        ctx.violation("corr:C06:model-eval", "coqc-parse", "parse model evaluation failed",
+                      {"log": str(e)[-3000:]}, found_input=False)
+        return {"cases": len(cases)}
+    mism = 0
+    classes = {}
+    for (code, args, ai, af, toks, names, syns, texts), (ncode, variables, constants), v in zip(
+            cases, impl, vals):
+        for tk in toks:
+            if tk[0] == "lit":
+                classes[str(tk[2])] = classes.get(str(tk[2]), 0) + 1
+        out, mvars, mord = vlib.parse_coq_value(v)
+        rn = {i: k for k, i in names.items()}
+        rs = {i: k for k, i in syns.items()}
+        rt = {i: k for k, i in texts.items()}
+        words = []
+        for o in out:
+            if o[0] == "OSyn":
+                words.append(rs[o[1]])
+            elif o[0] == "OName":
+                words.append(rn[o[1]])
+            elif o[0] == "OArg":
+                words.append("self._arg%s%d" % (TYPECODES[o[1]][0], o[2]))
+            elif o[0] == "OCte":
+                words.append("self._cte%s%d" % (TYPECODES[o[1]][0], o[2]))
+            else:
+                words.append(rt[o[2]])
+        m_vars = [("self._arg%s%d" % (TYPECODES[ct][0], k), rn[x], TYPECODES[ct][1])
+                  for (ct, k, x) in mvars]
+        m_ord = [("self._cte%s%d" % (TYPECODES[ct][0], k), rt[tx], TYPECODES[ct][1])
+                 for k, (ct, tx) in enumerate(mord)]
+        ctx.cov["traces_validated_against_impl"] += 1
+        ok = ("".join(words) == "".join(ncode.split())
+              and m_vars == [tuple(x) for x in variables]
+              and m_ord == [tuple(x) for x in constants])
+        if not ok:
+            mism += 1
+            if mism <= 3:
+                ctx.violation("corr:coefficient.parse", "model-differs",
+                              "parse(%r, accept_int=%s, accept_float=%s): implementation -> "
+                              "(%r, %r, %r), model -> (%r, %r, %r)" % (
+                                  code, ai, af, ncode, variables, constants,
+                                  " ".join(words), m_vars, m_ord),
+                              {"kind": "parse-corr", "code": code, "args": repr(args),
+                               "accept_int": ai, "accept_float": af})
+    return {"cases": len(cases), "mismatches": mism, "literal_pattern_class": classes}
+
+
 # ------------------------------------------------------------ spline orders
 def run_spline_validation(ctx, rng, n):
     """orders 2..5.  The spline fit is scipy's (oracle).  Checked here:
@@ -1282,9 +1431,19 @@ def run(ctx):
         "sample reproduction for orders 2-5 is validation at 1e-7",
         "numpy complex128/float64 division modelled as a*(1/b) per component (Smith's "
         "formula with zero imaginary divisor), np.allclose(rtol=1e-8, atol=0) as |a-b| <= rtol*|b|",
-        "expression-string path: only differential testing against Python eval "
-        "(interpreted StrFunctionCoefficient, parse() rewriting); no Coq model; the "
-        "compiled path cannot run here (no filelock/cython in /venv)",
+        "expression-string path: Model/C06_str.v is a token-level model of "
+        "extract_constant / parse (words = literals tagged with the first matching "
+        "pattern of extract_constant, names, syntax chunks); the regular-expression engine, "
+        "the harness tokenizer (tools/c06.py tokenize, which reads the four patterns from the "
+        "source under test), compileType / find_type_from_str (inputs argty / litty of the "
+        "model) and Python's evaluation of the rewritten text are not modelled; the "
+        "interpreted StrFunctionCoefficient and try_parse are additionally checked against "
+        "Python eval; the compiled path cannot run here (no filelock/cython in /venv)",
+        "construction isolation (coefficients do not follow later in-place edits of the "
+        "arrays / dicts they were built from) is an implementation-level oracle plus the "
+        "np.shares_memory flag of the InterCoefficient correspondence (model: "
+        "init_shares_inputs = false); values nested inside args are kept by reference "
+        "(shallow copy, Python semantics) and only recorded",
     ]
 
     # ------------------------------------------------------------ proof step
@@ -1301,7 +1460,8 @@ def run(ctx):
                                "failed_theorems": failed})
                 return
 
-    vlib.standard_proof_step(ctx, ["Props/C06.vo"], ["Props/C06.v"], search)
+    vlib.standard_proof_step(ctx, ["Props/C06.vo", "Props/C06_str.vo"],
+                             ["Props/C06.v", "Props/C06_str.v"], search)
     ctx.log("proof step done")
 
     # -------------------------------------------------- InterCoefficient tie
@@ -1512,6 +1672,9 @@ def run(ctx):
     # ------------------------------------------------------- expression strings
     sdist = run_string_checks(ctx, rng, 120 if ctx.quick else 1500)
 
+    pdist = run_parse_corr(ctx, rng, 150 if ctx.quick else 1500)
+    ctx.log("parse() correspondence done: %s" % pdist)
+    sdist["parse_model_correspondence"] = pdist
     ctx.cov["input_distribution"] = {"inter": dist, "function": fdist, "string": sdist,
                                      "isolation": idist}
     ctx.sample({"inter_case": jsonable({k: v for k, v in fcases[-1].items() if k != "ts"}),
@@ -1531,6 +1694,12 @@ def run(ctx):
         "statements hold unconditionally for the code's own path. The rules before fixes "
         "b254917 / 4ce1843 survive as old_call / old_NQ / old_NF in two witness Examples; "
         "the witnesses stay in the correspondence stream as regression cases. "
+        "String path (Props/C06_str.v): for every word list, args dictionary and typing, "
+        "the expression rewritten by parse(), read with the variables and ordered constants "
+        "it returns, denotes word for word what the original denotes (temporaries numbered "
+        "pattern class first, position second, still point to their own literal; generated "
+        "names never collide; repeated arguments re-use their variable), tied to parse() by "
+        "exact comparison of (code, variables, constants). "
         "FunctionCoefficient: "
         "argument filtering/merging and equality of the construction / replacement / "
         "call-time paths. The model is tied to coefficient.pyx by bit-exact (binary64 "
